@@ -12,3 +12,11 @@ mod c13_tryfrom;
 mod c14_float;
 #[cfg(kani)]
 mod c19_numtraits;
+#[cfg(kani)]
+mod c10_parse;
+#[cfg(kani)]
+mod c11_radix_out;
+#[cfg(kani)]
+mod c18_numtraits;
+#[cfg(kani)]
+mod c20_random;
